@@ -27,8 +27,8 @@ PROPS = ['C%02d' % i for i in range(1, 21)]
 
 # scenario plan: property -> tier -> [(family, count or None)]
 PLAN = {
-    'C01': {'quick': [('nest', 500), ('await_pos', 192), ('errors', 120), ('recursion', None), ('fwd3', 150), ('hist_rand', 120), ('timeout', 100)],
-            'thorough': [('nest', 12000), ('await_pos', None), ('errors', None), ('recursion', None), ('fwd3', None), ('fwd', 2000), ('hist_rand', 3000), ('timeout', None), ('timeout_rand', 2000)]},
+    'C01': {'quick': [('nest', 500), ('redispatch', None), ('await_pos', 192), ('errors', 120), ('recursion', None), ('fwd3', 150), ('hist_rand', 120), ('timeout', 100)],
+            'thorough': [('nest', 12000), ('redispatch', None), ('await_pos', None), ('errors', None), ('recursion', None), ('fwd3', None), ('fwd', 2000), ('hist_rand', 3000), ('timeout', None), ('timeout_rand', 2000)]},
     'C02': {'quick': [('nest', 500), ('await_pos', None), ('fwd3', 200), ('firstuse', None), ('life', 150)],
             'thorough': [('nest', 12000), ('await_pos', None), ('fwd3', None), ('fwd', 3000), ('firstuse', None), ('life', None), ('hist_rand', 2000)]},
     'C03': {'quick': [('nest', 500), ('await_pos', 192), ('recursion', None), ('errors', 120), ('fwd3', 150), ('hist', 150)],
@@ -41,20 +41,20 @@ PLAN = {
             'thorough': [('firstuse', None), ('nest', 15000), ('await_pos', None), ('fwd3', None), ('fwd', 3000), ('life', None), ('timeout_rand', 2000)]},
     'C07': {'quick': [('fwd3', None), ('fwd', 300)],
             'thorough': [('fwd3', None), ('fwd', 12000)]},
-    'C08': {'quick': [('fwd3', 768), ('fwd', 300), ('nest', 300), ('errors', 100)],
-            'thorough': [('fwd3', None), ('fwd', 8000), ('nest', 6000), ('errors', None), ('timeout_rand', 2000)]},
+    'C08': {'quick': [('fwd3', 768), ('fwd', 300), ('nest', 300), ('errors', 100), ('timeout', 300), ('timeout_rand', 200)],
+            'thorough': [('fwd3', None), ('fwd', 8000), ('nest', 6000), ('errors', None), ('timeout', None), ('timeout_rand', 4000)]},
     'C09': {'quick': [('nest', 500), ('fwd3', 500), ('fwd', 300), ('firstuse', None), ('errors', 100)],
             'thorough': [('nest', 12000), ('fwd3', None), ('fwd', 6000), ('firstuse', None), ('errors', None), ('await_pos', None)]},
     'C10': {'quick': [('timeout', None), ('timeout_rand', 400)],
             'thorough': [('timeout', None), ('timeout_rand', 12000)]},
-    'C11': {'quick': [('errors', None), ('nest', 300)],
-            'thorough': [('errors', None), ('nest', 10000), ('timeout_rand', 2000)]},
+    'C11': {'quick': [('errors', None), ('errors_par', None), ('nest', 300)],
+            'thorough': [('errors', None), ('errors_par', None), ('nest', 10000), ('timeout_rand', 2000)]},
     'C13': {'quick': [('hist', None), ('hist_rand', 400), ('capacity', 24)],
             'thorough': [('hist', None), ('hist_rand', 10000), ('capacity', None)]},
-    'C14': {'quick': [('capacity', None), ('hist', 200), ('life', 200)],
-            'thorough': [('capacity', None), ('hist', None), ('hist_rand', 4000), ('life', None), ('life_rand', 3000)]},
-    'C15': {'quick': [('life', None), ('life_rand', 400), ('fwd', 200), ('timeout', 100)],
-            'thorough': [('life', None), ('life_rand', 10000), ('fwd', 3000), ('timeout', None), ('nest', 4000), ('hist_rand', 2000)]},
+    'C14': {'quick': [('capacity', None), ('retry_dispatch', None), ('hist', 200), ('life', 200)],
+            'thorough': [('capacity', None), ('retry_dispatch', None), ('hist', None), ('hist_rand', 4000), ('life', None), ('life_rand', 3000)]},
+    'C15': {'quick': [('life', None), ('idle_par', None), ('life_rand', 400), ('fwd', 200), ('timeout', 100)],
+            'thorough': [('life', None), ('idle_par', None), ('life_rand', 10000), ('fwd', 3000), ('timeout', None), ('nest', 4000), ('hist_rand', 2000)]},
     'C16': {'quick': [('life', None), ('life_rand', 400)],
             'thorough': [('life', None), ('life_rand', 15000)]},
     'C18': {'quick': [('expect', 800)],
@@ -63,10 +63,10 @@ PLAN = {
 
 # which witness clauses belong to which property (prefix match), optionally only for scenarios of some families
 OWN = {p: [(p + '.', None)] for p in PROPS}
-OWN['C11'] += [('C01.missing', ('errors',)), ('C03.', ('errors',))]
+OWN['C11'] += [('C01.missing', ('errors', 'errors_par')), ('C03.', ('errors', 'errors_par')), ('C10.child_pending', ('errors', 'errors_par'))]
 OWN['C13'] += [('C01.', ('hist', 'hist_rand', 'capacity')), ('C03.', ('hist', 'hist_rand', 'capacity'))]
-OWN['C14'] += [('C03.', ('capacity',)), ('C01.missing', ('capacity',))]
-OWN['C10'] += [('C01.missing', ('timeout', 'timeout_rand')), ('C15.hang', ('timeout', 'timeout_rand'))]
+OWN['C14'] += [('C03.', ('capacity', 'retry_dispatch')), ('C01.missing', ('capacity', 'retry_dispatch'))]
+OWN['C10'] += [('C01.missing', ('timeout', 'timeout_rand')), ('C15.hang', ('timeout', 'timeout_rand')), ('C08.result_changed', ('timeout', 'timeout_rand'))]
 OWN['C07'] += [('Q.no_quiescence', ('fwd', 'fwd3'))]
 GENERIC = ('Q.', 'X.')
 
@@ -162,6 +162,23 @@ def check_property(prop, tier, seed, extra_parts=None):
                 kf_seen[w['kf']] += 1
             else:
                 viol.setdefault(sid, []).append(w)
+    # conformance: the recorded traces of the scenarios the detailed model covers are replayed through Bubus.tla's own actions
+    conf = None
+    elig = [(sid, tr) for sid, tr in sorted(res['traces'].items()) if not tr.get('abort') and tlc.impl_eligible(tr['scn'])]
+    limit = 400 if tier == 'quick' else 4000
+    if elig:
+        step = max(1, len(elig) // limit)
+        sample = elig[::step][:limit]
+        t1 = time.time()
+        acc, rej, st = tlc.validate_impl(sample)
+        conf = {'eligible': len(elig), 'validated': len(sample), 'accepted': len(acc), 'rejected': len(rej), 'states': st,
+                'wall_s': round(time.time() - t1, 1),
+                'rejected_examples': [{'sid': sid, 'line': ln, 'logged': {k: v for k, v in line.items() if k != 's'}} for sid, (ln, line) in list(rej.items())[:5]]}
+        for sid, (ln, line) in list(rej.items())[:5]:
+            print('MODEL-DRIFT %s line %d: the detailed model (spec/Bubus.tla) has no action explaining %s' % (
+                sid, ln, json.dumps({k: v for k, v in line.items() if k != 's'})[:200]))
+        if rej:
+            print('MODEL-DRIFT total: %d of %d traces rejected by TraceImpl (not a verdict: properties are decided by TraceObs on the same traces)' % (len(rej), len(sample)))
     # model-level part (exhaustive TLC on the design model), if built for this property
     model = None
     try:
@@ -200,7 +217,7 @@ def check_property(prop, tier, seed, extra_parts=None):
     for sid in sample_sids:
         tr = res['traces'][sid]
         samples.append({'sid': sid, 'scenario': {k: v for k, v in tr['scn'].items() if k != 'tag'},
-                        'trace_head': [{k: v for k, v in l.items() if k not in ('evs', 'hist', 'q', 'reg', 'x')} for l in tr['lines'][:12]],
+                        'trace_head': [{k: v for k, v in l.items() if k not in ('evs', 'hist', 'q', 'reg', 'xs')} for l in tr['lines'][:12]],
                         'witnesses': res['reports'][sid]['wit'][:5]})
     cov = {
         'states': max(1, res['states'] + (model or {}).get('states', 0)),
@@ -224,6 +241,9 @@ def check_property(prop, tier, seed, extra_parts=None):
     }
     if model is not None:
         cov['model'] = {k: v for k, v in model.items() if k not in ('messages',)}
+    if conf is not None:
+        cov['conformance_TraceImpl'] = conf
+        cov['states'] += conf['states']
     ev = {
         'property_id': prop, 'tier': tier, 'seed': seed, 'level': 'model_checking', 'coverage': cov,
         'assumptions': [
